@@ -1128,6 +1128,10 @@ class Interp:
             return self.ctx.extern_value(obj.name + '.' + name)
         if isinstance(obj, VOpaque):
             return VBuiltin('opaque.' + name, obj)
+        if isinstance(obj, VBuiltin) and obj.self_val is None and not obj.name.startswith(('extcontract:', 'exc-class:')):
+            return self.ctx.extern_value(obj.name + '.' + name)       # attribute of an external module / class
+        if isinstance(obj, VBuiltin) and obj.name.startswith('extcontract:') and obj.self_val is None:
+            return self.ctx.extern_value(obj.name[len('extcontract:'):] + '.' + name)
         if isinstance(obj, VExc):
             if name == 'args':
                 return VTuple(obj.args)
